@@ -19,7 +19,7 @@ import numpy as _np
 
 from .runner import HarnessError
 
-EPS = 1e-12
+EPS = 1e-13      # a branch is pruned when its path mass (relative to the explored prefix) falls below this
 DELAYS = (0.5, 0.25, 0.75, 1.0, 0.125, 0.375, 1.5, 0.625)
 TINY_RATE = 1e-9
 
@@ -148,8 +148,10 @@ def _desc_item(x):
 class ForkRNG(object):
     """Stands in for the `random` module."""
 
-    def __init__(self, script=(), max_clocks=10 ** 9, delays=DELAYS, detect_restart=True, max_forks=None, prefer_true=False):
+    def __init__(self, script=(), max_clocks=10 ** 9, delays=DELAYS, detect_restart=True, max_forks=None, prefer_true=False, mass_from=0):
         self.prefer_true = prefer_true
+        self.mass_from = mass_from      # path mass is measured from this fork index on (the end of the fixed prefix)
+        self.mass = 1.0
         self.script = list(script)
         self.trace = []       # dicts: kind, desc, probs, chosen, nclock
         self.clocks = []      # dicts: rate, pos (number of forks before it), delay
@@ -171,21 +173,24 @@ class ForkRNG(object):
             if par['desc'][0] == 'cmp' and gp['desc'] == desc and gp['nclock'] == len(self.clocks) \
                     and par['nclock'] == len(self.clocks):
                 raise _Restart(i - 2)
+        mass = self.mass
         if i < len(self.script):
             c = self.script[i]
             if not (0 <= c < len(probs)):
                 raise ScriptMismatch('script entry %d out of range at fork %d %r' % (c, i, desc))
         else:
             c = None
-            if self.prefer_true and desc[0] == 'cmp' and probs[1] >= EPS:
+            if self.prefer_true and desc[0] == 'cmp' and mass * probs[1] >= EPS:
                 c = 1
             for k, p in (enumerate(probs) if c is None else ()):
-                if p >= EPS:
+                if mass * p >= EPS:
                     c = k
                     break
             if c is None:
-                raise HarnessError('fork with no alternative of positive probability: %r %r' % (desc, probs))
-        self.trace.append({'desc': desc, 'probs': tuple(probs), 'chosen': c, 'nclock': len(self.clocks)})
+                c = max(range(len(probs)), key=lambda k: probs[k])
+        self.trace.append({'desc': desc, 'probs': tuple(probs), 'chosen': c, 'nclock': len(self.clocks), 'mass': mass})
+        if i >= self.mass_from:
+            self.mass = mass * probs[c]
         return c
 
     def _uniform_fork(self, kind, n, items=None):
@@ -389,7 +394,7 @@ def enumerate_paths(run, prefix=(), max_clocks=10 ** 9, max_leaves=200000, delay
     pruned = 0.0
     g0 = _global_fingerprint()
     while True:
-        rng = ForkRNG(script, max_clocks=max_clocks, delays=delays, max_forks=max_forks)
+        rng = ForkRNG(script, max_clocks=max_clocks, delays=delays, max_forks=max_forks, mass_from=len(prefix))
         try:
             with installed(rng, check_bypass=False):
                 out = run(rng)
@@ -413,7 +418,7 @@ def enumerate_paths(run, prefix=(), max_clocks=10 ** 9, max_leaves=200000, delay
         while j >= len(prefix):
             e = trace[j]
             for k in range(e['chosen'] + 1, len(e['probs'])):
-                if e['probs'][k] >= EPS:
+                if e['mass'] * e['probs'][k] >= EPS:
                     nxt = k
                     break
             if nxt is not None:
@@ -454,9 +459,12 @@ def law(leaves, key, start=0):
                 rst[k] = rst.get(k, 0.0) + p * v
         r0 = rst.pop(depth, 0.0)
         if r0 > 0:
-            if r0 >= 1.0 - 1e-15:
+            # condition on leaving the loop: divide by the mass that does NOT restart here.  It is summed directly
+            # (1 - r0 would cancel catastrophically when acceptance is rare, e.g. a stale, too large max weight).
+            keep = sum(out.values()) + sum(rst.values())
+            if keep <= 0.0:
                 raise HarnessError('rejection loop that never accepts')
-            s = 1.0 / (1.0 - r0)
+            s = 1.0 / keep
             out = {k: v * s for k, v in out.items()}
             rst = {k: v * s for k, v in rst.items()}
         return out, rst
